@@ -61,11 +61,14 @@ class _Rec:
 def own_oracle(p, m, width, vals):
     """(bucket, rank) of every value as the implementation's _hasher_update computes them (None if not readable)."""
     out = []
-    g = HyperLogLogWCache()
-    g.p, g.m, g.width = p, m, width
+    try:
+        g = HyperLogLogWCache()
+        g.p, g.m, g.width = p, m, width
+    except Exception:
+        return [None] * len(vals)
     for v in vals:
-        g.M = _Rec()
         try:
+            g.M = _Rec()
             g._hasher_update(v)
             rec = g.M
             ok = rec.j is not None and 0 <= rec.j < m and int(rec.v) == rec.v and 0 < int(rec.v) < 256
@@ -79,16 +82,16 @@ def run_small(case):
     p, W = case["p"], case["W"]
     vals = [mkval(s) for s in case["values"]]
     index = {v: i for i, v in enumerate(vals)}
-    h = HyperLogLogWCache()
-    h.p = p
-    h.m = 1 << p
-    h.warmup_size = W
-    h.width = 64 - p
     hashes = [xxhash.xxh32(as_bytes(v), seed=p).intdigest() for v in vals]
     lens, flags = [], []
     first_cold = None
     err = None
     try:
+        h = HyperLogLogWCache()
+        h.p = p
+        h.m = 1 << p
+        h.warmup_size = W
+        h.width = 64 - p
         for k, i in enumerate(case["ops"]):
             h.add(vals[i])
             lens.append(length(h))
